@@ -40,6 +40,7 @@ Init == l = 1
 Plain == IsEv("reset") \/ IsEv("end")
 PrintEv ==
   /\ IsEv("print")
+  /\ (Mode = "print" => E.showbad = 0)     \* %$ of a container: its elements' own show texts, each once, in iteration order
   /\ Mode = "print" =>
        IF E.nargs >= E.nconv
        THEN LET text == Flat(E.parts, Len(E.parts)) IN
